@@ -15,6 +15,7 @@ def dispatch (line : String) : String :=
   | "fetch" :: rest => fetchEngine rest
   | "cache" :: rest => cacheEngine rest
   | "kvfs" :: rest => kvfsEngine rest
+  | "kvfs2" :: rest => kvfs2Engine rest
   | "asm15" :: rest => asm15Engine rest
   | "osfs" :: rest => osfsEngine rest
   | "git" :: rest => gitEngine rest
